@@ -1,0 +1,33 @@
+//go:build verif
+
+package spy
+
+// Hooks for the runtime monitors in /verif (compiled only with -tags verif).
+
+import (
+	spyv1 "github.com/alephium/wormhole-fork/node/pkg/proto/spy/v1"
+	"go.uber.org/zap"
+)
+
+// VerifSpyServer wraps the real, unexported spyServer.
+type VerifSpyServer struct{ s *spyServer }
+
+func VerifNewSpyServer(logger *zap.Logger) *VerifSpyServer {
+	return &VerifSpyServer{s: newSpyServer(logger)}
+}
+
+func (v *VerifSpyServer) Publish(vaaBytes []byte) error { return v.s.Publish(vaaBytes) }
+
+func (v *VerifSpyServer) SubscribeSignedVAA(req *spyv1.SubscribeSignedVAARequest, resp spyv1.SpyRPCService_SubscribeSignedVAAServer) error {
+	return v.s.SubscribeSignedVAA(req, resp)
+}
+
+// VerifSubscriptionCount returns the number of registered subscriptions, or -1 if the
+// subscription table's mutex could not be taken (it is held by a blocked Publish).
+func (v *VerifSpyServer) VerifSubscriptionCount() int {
+	if !v.s.subsMu.TryLock() {
+		return -1
+	}
+	defer v.s.subsMu.Unlock()
+	return len(v.s.subs)
+}
